@@ -757,6 +757,49 @@ func randomMapTrace(id int, seed int64, steps int, out *json.Encoder, fixed *map
 				}
 				rootModels[r.nextR] = cp
 			}
+		case x < w[9] && x%4 == 0 && profile == "versions" && len(r.roots) > 0:
+			// several handles on ONE retained version, opened one after the other through the shared cache, each modified, some persisted
+			rr := r.roots[rng.Intn(len(r.roots))]
+			for rep := 0; rep < 3; rep++ {
+				g := freeSlot()
+				if g == 0 {
+					break
+				}
+				r.exec(absOp{Op: "load", G: g, R: rr.id, Cached: true})
+				if _, ok := r.hs[g]; !ok {
+					break
+				}
+				cp := map[int]int{}
+				for k, v := range rootModels[rr.id] {
+					cp[k] = v
+				}
+				sh.live[g] = cp
+				for e := 0; e < 1+rng.Intn(2); e++ {
+					k, v := 1+rng.Intn(cfg.NK), 1+rng.Intn(cfg.NV)
+					if old, ok := sh.live[g][k]; ok && rng.Intn(3) == 0 {
+						r.exec(absOp{Op: "del", H: g, K: k, V: old})
+						delete(sh.live[g], k)
+					} else {
+						r.exec(absOp{Op: "ins", H: g, K: k, V: v})
+						sh.live[g][k] = v
+					}
+				}
+				if rep > 0 {
+					before := r.nextR
+					r.exec(absOp{Op: "root", H: g})
+					if r.nextR != before {
+						cp2 := map[int]int{}
+						for k, v := range sh.live[g] {
+							cp2[k] = v
+						}
+						rootModels[r.nextR] = cp2
+					}
+				}
+				if rng.Intn(2) == 0 {
+					r.exec(absOp{Op: "drop", H: g})
+					delete(sh.live, g)
+				}
+			}
 		case x < w[9]:
 			if g := freeSlot(); g != 0 && len(r.roots) > 0 {
 				rr := r.roots[rng.Intn(len(r.roots))]
